@@ -73,6 +73,8 @@ def io_side(ctx, ex, prog, VAL):
                     elif vn == 'GetOk':
                         inner = val.payloads[val.disc].fields[0].fields[0].fields[0].cell.value
                         conds.append(z3.And(fs.is_method('Basic', 'GetEmpty'), z3.BoolVal(inner.disc == 0)))
+        if not isinstance(rv, Panic):
+            conds.append(earlier_kept(w))
         claim = z3.And(*conds)
         m = ctx.decide(f"c04.route#{cnt}", s.pc, claim, group='a reply frame on channel n is placed, unchanged, on the reply queue of slot n and nowhere else',
                        sample={'result': out, 'A.reply': len(ra), 'B.reply': len(rb)})
